@@ -57,7 +57,8 @@ func script(body string) string {
 // programs outside the model's fragment
 func directPrograms(thorough bool) []directProgram {
 	ps := []directProgram{
-		// finding: the VM ignores the configured call-depth limit
+		// recursion deeper than a CONFIGURED limit must fail with the call-depth user error in both engines
+		// (the VM ignored the configuration before fix 0182225)
 		{Name: "configured-depth-limit", Depth: 10, Comp: 10_000_000, Expect: "LimitDepth",
 			Src: "access(all) fun f(_ n: Int): Int { if n == 0 { return 0 }\n return f(n - 1) + 1 }\naccess(all) fun main(): Int { return f(50) }\n"},
 		{Name: "for-range", Comp: 5000, Expect: "LimitComputation",
